@@ -210,6 +210,8 @@ func (e *Expr) SQL() string {
 			return strings.ToUpper(e.Name) + "(*)"
 		}
 		return strings.ToUpper(e.Name) + "(" + sqlPath(e.Path) + ")"
+	case "badsel":
+		return "`" + e.Str + "`"
 	case "tuple":
 		parts := make([]string, len(e.Items))
 		for i, x := range e.Items {
@@ -434,6 +436,8 @@ func (e *Expr) Coq() string {
 			return "(EAgg " + coqAgg[strings.ToLower(e.Name)] + " None)"
 		}
 		return "(EAgg " + coqAgg[strings.ToLower(e.Name)] + " (Some " + coqPath(e.Path) + "))"
+	case "badsel":
+		return "(ECall \"\" \"badselector__\" [])"
 	case "tuple":
 		// a value tuple used as a value has no term in the model: rendered as a call no model function answers, so
 		// the model reports out-of-model and only the observations made on the real result (plainness) count
@@ -542,6 +546,8 @@ type engineOut struct {
 	Class string `json:"class"` // ok | error | panic
 	Rows  []any  `json:"rows,omitempty"`
 	Err   string `json:"err,omitempty"`
+	// Retry (C19 only): outcome of calling Exec a second time on the same Query object after the first Exec failed
+	Retry *engineOut `json:"retry,omitempty"`
 }
 
 // runEngine executes New + Exec on the real code, converting escaped panics into a class.
